@@ -232,6 +232,8 @@ def run(ctx: Ctx) -> None:
     memo.rule_arg_names(ctx, [SRC, STATE])
     memo.rule_fixed_width(ctx, [SRC, STATE])
     memo.rule_paste_incomplete(ctx, [SRC, STATE])
+    memo.rule_negative_start(ctx, [SRC, STATE])
+    memo.rule_elim_no_pivot(ctx, [SRC, STATE])
     numeric.rule_gf2round(ctx, armed=[(SRC, "_graph_finder")],
                           advisory=[(SRC, "_phase_correction"), (LCE, "_solution_basis_finder"), (LCE, "_vec_solution_finder")])
     ctx.floor("flow.missing-return", 25)
@@ -342,6 +344,8 @@ def _filtered_positions(src: str) -> str:
 
 
 KNOCKOUTS = [
+    Knockout("position-finder-starts-before-first-column", SRC, sub_once("    pivot = [0, 0]\n    n = x_matrix.shape[0]\n    pos_list = []", "    pivot = [-1, -1]\n    n = x_matrix.shape[0]\n    pos_list = []"), "index.negative-start", "_position_finder"),
+    Knockout("gf2-inverse-without-pivoting", SRC, sub_once("def _graph_finder(x_matrix, z_matrix, get_ops_data=False):", "def _gf2_inverse(matrix):\n    n = matrix.shape[0]\n    augmented = np.hstack([matrix.astype(int) % 2, np.eye(n, dtype=int)])\n    for col in range(n):\n        assert augmented[col, col] == 1\n        for row in range(n):\n            if row != col and augmented[row, col] == 1:\n                augmented[row] = (augmented[row] + augmented[col]) % 2\n    return augmented[:, n:]\n\n\ndef _graph_finder(x_matrix, z_matrix, get_ops_data=False):"), "elim.no-pivot", "_gf2_inverse"),
     Knockout("filtered-position-as-label", SRC, _filtered_positions, "index.space", "used as a label"),
     Knockout("equivalency-raw-compare", SRC, sub_once("        return canonical_form(stab1.copy()) == canonical_form(stab2.copy())", "        return stab1 == stab2"), "canon.compare", "without canonical forms", on_fixed_only=True),
     Knockout("rep-cache", STATE, sub_once("            self._rep_data = conversion_func(tmp_data)", "            if not hasattr(self, '_memo'):\n                self._memo = {}\n            self._memo[self._rep_type] = tmp_data\n            self._rep_data = self._memo[rep_type] if rep_type in self._memo else conversion_func(tmp_data)"), "table.convert", "not computed from the current data"),
